@@ -174,6 +174,10 @@ func checkTree(doc ast.Node, src []byte) []string {
 
 func runC05(c *Ctx) {
 	c.Rep.Rule = "a case is (configuration, document); every node of the parsed tree is checked; distinct by hash of the document; non-trivial = the tree has depth >= 3"
+	// tie of the block-scanner models whose totality / range theorems this property states
+	listItemCases(c, 1000)
+	leafBlockCases(c, 0)
+	delimCases(c, 1000)
 	cfgs := []Cfg{{Ext: "core"}, {Ext: "gfm"}, {Ext: "all", AutoID: true, Attr: true}, {Ext: "footnote"}, {Ext: "deflist"}, {Ext: "typo"}, {Ext: "gfm+footnote", Attr: true}, {Ext: "cjk"}, {Ext: "table"}}
 	o := docOpts{exhaustiveLen: 2, corpus: true, random: 6000, mutants: 6000, blockLines: 2, randLines: 6000}
 	if !c.Quick() {
